@@ -108,7 +108,11 @@ func (e *Env) SetMarker(rel string, on bool) {
 	p := filepath.Join(e.WS, filepath.FromSlash(rel))
 	if on {
 		_ = os.MkdirAll(filepath.Dir(p), 0755)
-		_ = os.WriteFile(p, []byte("ok\n"), 0644)
+		content := "ok\n"
+		if strings.HasPrefix(filepath.Base(p), "blank_") {
+			content = "" // the condition of a check that expects no output at all
+		}
+		_ = os.WriteFile(p, []byte(content), 0644)
 		e.Markers[rel] = true
 	} else {
 		_ = os.Remove(p)
@@ -127,7 +131,8 @@ func (e *Env) checkHolds(c spec.Check) bool {
 	if c.Expected == "" {
 		return true
 	}
-	return strings.TrimSpace(string(b)) == c.Expected
+	// (a white-space-only expectation demands that the check prints nothing)
+	return strings.TrimSpace(string(b)) == strings.TrimSpace(c.Expected)
 }
 
 // SpoilMarker leaves the marker file in place with a content that an expected_output check must
